@@ -562,6 +562,7 @@ async fn run_async(cfg: &Config, headers: &[ExtendedHeader], prefix: &[u32], kee
         )
     };
     if keep_labels {
+        ch.labels.push(format!("config: {}", serde_json::to_string(cfg).unwrap()));
         ch.labels.push(format!("log: {}", render_log(&log_v)));
         if let Some(f) = &fatal {
             ch.labels.push(format!("fatal event: {f}"));
